@@ -159,7 +159,7 @@ def task_container_search(pr, repo):
 def task_average_marks(pr, repo):
     # the conformation average leaves each conformation's coupling marks alone (C08-AV frame)
     from . import C08
-    C08.task_average(pr, repo, 2)
+    C08.task_average(pr, repo, 2, ('marks',))
 
 
 def run(pr, repo):
